@@ -24,10 +24,24 @@ func refSplit(path string) ([]string, bool) {
 	return segs, true
 }
 
+// refIsPathByte: the ASCII characters lexer.go documents for request path segments
+// (tokenPath: a-z A-Z 0-9 - _ . ~ ! $ & ' ( ) * + , ; = @), written out independently of isPath.
+func refIsPathByte(c byte) bool {
+	switch {
+	case c >= 'a' && c <= 'z', c >= 'A' && c <= 'Z', c >= '0' && c <= '9':
+		return true
+	}
+	switch c {
+	case '-', '_', '.', '~', '!', '$', '&', '\'', '(', ')', '*', '+', ',', ';', '=', '@':
+		return true
+	}
+	return false
+}
+
 func refAllPathChars(s string) bool {
 	for i := 0; i < len(s); {
 		if c := s[i]; c < utf8.RuneSelf {
-			if !isPath(rune(c)) {
+			if !refIsPathByte(c) {
 				return false
 			}
 			i++
